@@ -683,7 +683,8 @@ impl Value {
     // (dom_entry_past_end_is_error: the in-place parser may stop inside the padding)
     #[verifier::external_body]
     pub fn parse_with_padding(&mut self, json: &[u8], cfg: DeserializeCfg) -> (res: Result<usize>)
-        ensures res.is_ok() ==> res->Ok_0 <= json@.len(), res.is_err() ==> (res->Err_0).has_pos,
+        // an error is located in the text the parser was GIVEN (for the lossy configuration: the repaired copy)
+        ensures res.is_ok() ==> res->Ok_0 <= json@.len(), res.is_err() ==> (res->Err_0).has_pos && (res->Err_0).off <= json@.len(),
     { unimplemented!() }
     // the embedded parse (copy-out driver parse_dom2: unit `decoder`) on the caller's own parser
     #[verifier::external_body]
@@ -692,12 +693,23 @@ impl Value {
         ensures final(parser).pinv(), final(parser).same_doc(old(parser)),
     { unimplemented!() }
 }
+impl Error {
+    // Error::syntax (unit `errors`: requires the offset inside the text, stores it, line / column of that offset)
+    #[verifier::external_body]
+    pub fn syntax(code: ErrorCode, json: &[u8], index: usize) -> (e: Error)
+        requires index <= json@.len(),
+        ensures e.has_pos, e.off == index,
+    { unimplemented!() }
+    #[verifier::external_body]
+    pub fn offset(&self) -> (r: usize) ensures r == self.off, { unimplemented!() }
+}
 // `String::from_utf8_lossy(json).as_bytes()`: the repaired text (std, T4)
 #[verifier::external_body]
 pub fn lossy_text(json: &[u8]) -> (r: Vec<u8>) { unimplemented!() }
 // the unsafe hand-over of the finished Value to its visitor as raw bytes (`ManuallyDrop` + `visit_bytes`)
 #[verifier::external_body]
-pub fn hand_over_value<'de, V: Visitor<'de>>(visitor: V, val: Value) -> (r: Result<V::Value>) { unimplemented!() }
+// (the visitor is Value's own — the entry point is only reached through Value's TOKEN — and its visit_bytes cannot fail)
+pub fn hand_over_value<'de, V: Visitor<'de>>(visitor: V, val: Value) -> (r: Result<V::Value>) ensures r.is_ok(), { unimplemented!() }
 
 impl<'de, R: Reader<'de>> Deserializer<R> {
     #[verifier::external_body]
@@ -707,7 +719,7 @@ impl<'de, R: Reader<'de>> Deserializer<R> {
 
 //@extract file=src/serde/de.rs impl="Deserializer<R>" fn=deserialize_value
 //@subst /V: de::Visitor<'de>,/ => V: Visitor<'de>,
-//@subst /val\.parse_with_padding\(String::from_utf8_lossy\(json\)\.as_bytes\(\), cfg\)\?/ => val.parse_with_padding(lossy_text(json).as_slice(), cfg)?
+//@subst /val\.parse_with_padding\(String::from_utf8_lossy\(json\)\.as_bytes\(\), cfg\)/ => val.parse_with_padding(lossy_text(json).as_slice(), cfg)
 //@subst /unsafe \{\s*if self\.shared\.is_none\(\) \{\s*self\.shared = Some\(Arc::new\(Shared::default\(\)\)\);\s*\}\s*let shared = self\.shared\.as_mut\(\)\.unwrap\(\);\s*&mut \*\(Arc::as_ptr\(shared\) as \*mut _\)\s*\}/ => self.shared_handle()
 //@subst /let val = ManuallyDrop::new\(val\);/ => let val = val;
 //@subst /unsafe \{\s*let binary =\s*&\*slice_from_raw_parts\(&val as \*const _ as \*const u8, std::mem::size_of::<Value>\(\)\);\s*visitor\.visit_bytes\(binary\)\s*\}/ => hand_over_value(visitor, val)
@@ -716,6 +728,9 @@ impl<'de, R: Reader<'de>> Deserializer<R> {
         // the reader stays inside the input — `eat(n)` after the whole-input parse is in range in both configurations —
         // and the document is untouched
         ensures final(self).parser.pinv(), final(self).parser.same_doc(&old(self).parser),
+            // C20 (found F26): an error of the whole-input parse is located inside the INPUT, also when the text that
+            // was parsed is the repaired copy of the lossy configuration
+            (res.is_err() && old(self).parser.read.idx() == 0) ==> (res->Err_0).has_pos ==> (res->Err_0).off <= old(self).parser.read.data().len(),
 //@end
 }
 
